@@ -131,7 +131,7 @@ func pickFloat(r *wk.Rand, lo, hi *float64) (float64, bool) {
 	return wk.Pick(r, cands), true
 }
 
-var stringPool = []string{"", "a", "ab", "abc", "abcd", "abcde", "b", "ba", "x", "y", "xy", "a1", "12", "a12b", "1", "10", "007", "A_b-9", "hello world", "üñ", "aaaaaaa", "zzzzzzzzzz", "ab12cd"}
+var stringPool = []string{"", "a", "ab", "abc", "abcd", "abcde", "b", "ba", "x", "y", "xy", "a1", "12", "a12b", "1", "10", "007", "A_b-9", "hello world", "üñ", "aaaaaaa", "zzzzzzzzzz", "ab12cd", "GET /x", "POST ", "a ", " a", "x y", "\tz"}
 
 func pickString(r *wk.Rand, s *Shape) (string, bool) {
 	ok := func(v string) bool {
